@@ -16,6 +16,7 @@ case = dict(A, P, N, wtt_us, stop_us, ends, horizon_us, ack_type, msgs=[dict(at,
             FAULT s exc, no LTS trace; sc["live"]["supervisor"]: instead of run_receiver_task a supervisor of the driver runs ONE
             Receiver object over several listen() sessions (recv_props.gen_relisten) - raw log also LISTEN.FAILED s exc, RESUME n
 observation = dict(raw=[[t_us, tag, a, b], ...], lts=[Coq event literals], cut, returned, wire={i: printable bytes})"""
+import __future__
 import asyncio
 import base64
 import json
@@ -25,6 +26,8 @@ import threading
 import types
 from typing import Annotated, Any
 
+import pipeline_driver as PD     # the registry of parameter annotations (ANNOT / param_sources / call_args), shared with the pipeline family
+import recv_props
 import shims
 import vloop
 
@@ -152,6 +155,13 @@ def run_case(sc, opts):
                                 lv["waiter"] = loop.create_future()
                                 await lv["waiter"]
                         fl["done"] = True
+                        if fl.get("stop"):
+                            # (recv_props.gen_rebuild) not a failure of the stream: the supervisor requests a graceful stop of THIS
+                            # session - the finish event it gave to this session's listen(); nothing more is delivered to it
+                            log.add("SESSION.STOP", s)
+                            lv["stopped_session"] = s
+                            lv["cur_event"].set()
+                            await asyncio.Event().wait()
                         log.add("FAULT", s, fl["exc"])
                         raise cli_glue.listen_fault(fl["exc"])
                     if k >= len(L):
@@ -597,7 +607,10 @@ def run_case(sc, opts):
 
         def shaped_function(style, shape, core):
             """a task function with the parameter list of `shape` = dict(hints: the three message parameters are annotated or
-            bare, opt_kw: a further optional parameter, varkw: a **catch-all, deps = [[parameter, kind, form]]: injected
+            bare, opt_kw: a further optional parameter, varkw: a **catch-all, params: further MESSAGE parameters with annotations of
+            the pipeline family's registry (recv_props.decorate_params; written by pipeline_driver.param_sources: positional ones
+            after `out`, `*rest`, keyword-only ones; future: `from __future__ import annotations`; ret: return annotation),
+            deps = [[parameter, kind, form]]: injected
             parameters - kind state (TaskiqState) | context (Context) | custom-* (TaskiqDepends(provider)); form default
             (`p: T = TaskiqDepends(...)`) | annotated (keyword-only `p: Annotated[T, TaskiqDepends(...)]`, no default)).  A real
             `def` (written out and compiled), so that a call with a keyword it does not have / without one it requires fails
@@ -605,7 +618,17 @@ def run_case(sc, opts):
             ns = dict(Any=Any, Annotated=Annotated, TaskiqDepends=TaskiqDepends, TaskiqState=TaskiqState, Context=Context, core=core,
                       __name__=__name__)       # (the function's __module__: this driver, like the built-in two)
             ann = (": int", ": int", ": str") if shape.get("hints", True) else ("", "", "")
-            params = ["i%s" % ann[0], "dur%s" % ann[1], "out%s" % ann[2], "extra: Any = None"]
+            params = ["i%s" % ann[0], "dur%s" % ann[1], "out%s" % ann[2]]
+            P = shape.get("params") or {}
+            star, kwo, ret = None, [], ""
+            if P:
+                ns.update(PD.ANNOT_NS)
+                pos, star, kwo, _ = PD.param_sources(0, {"params": P}, ns)
+                params += pos + ([star] if star else [])
+                if P.get("ret"):
+                    ns["R"] = PD.ANNOT[P["ret"]]
+                    ret = " -> %s" % (repr(ns["R"]) if isinstance(ns["R"], str) else "R")
+            params.append("extra: Any = None")
             if shape.get("opt_kw"):
                 params.append("tag: str = 't'")
             kwonly = []
@@ -621,13 +644,15 @@ def run_case(sc, opts):
                     kwonly.append("%s: Annotated[%s, %s]" % (pname, ty, dep))
                 else:
                     params.append("%s: %s = %s" % (pname, ty, dep))
+            kwonly = kwo + kwonly
             if kwonly:
-                params += ["*"] + kwonly
+                params += ([] if star else ["*"]) + kwonly
             if shape.get("varkw"):
-                params.append("**rest")
-            src = "%sdef task_function(%s):\n    return %score(i, dur, out, extra)\n" % (
-                "async " if style != "sync" else "", ", ".join(params), "await " if style != "sync" else "")
-            exec(compile(src, "<scenario task function>", "exec", dont_inherit=True), ns)
+                params.append("**more")
+            src = "%sdef task_function(%s)%s:\n    return %score(i, dur, out, extra)\n" % (
+                "async " if style != "sync" else "", ", ".join(params), ret, "await " if style != "sync" else "")
+            flags = __future__.annotations.compiler_flag if P.get("future") else 0
+            exec(compile(src, "<scenario task function>", "exec", flags=flags, dont_inherit=True), ns)
             return ns["task_function"]
 
         ta = br.task(task_name="ta")(body("async"))
@@ -672,6 +697,10 @@ def run_case(sc, opts):
             args, kwargs = pos[:n], dict(list(zip(("i", "dur", "out"), pos))[n:])
             if "extra" in w:
                 kwargs["extra"] = w["extra"]
+            if m.get("params"):
+                a2, k2 = PD.call_args({"params": {"list": recv_props.typed_params(sc, m)}})
+                assert not a2 or n == 3, "scenario: positional parameter values after keyword arguments"
+                args, kwargs = args + a2, dict(kwargs, **k2)
             if w["via"] == "kicker":
                 task = {"ta": ta, "ts": ts}.get(name)       # (a late / shared task: a kicker made for its name)
                 kicker = task.kicker() if task is not None else AsyncKicker(task_name=name, broker=br, labels={})
@@ -732,8 +761,9 @@ def run_case(sc, opts):
                     labels = {}
                     if m.get("tlabel_us") is not None:
                         labels["timeout"] = m["tlabel_us"] / 1e6
+                    a2, k2 = PD.call_args({"params": {"list": recv_props.typed_params(sc, m)}})
                     data = br.formatter.dumps(TaskiqMessage(task_id=str(i), task_name=name, labels=labels,
-                                                            args=[i, m["dur"], m["out"]], kwargs={})).message
+                                                            args=[i, m["dur"], m["out"]] + a2, kwargs=k2)).message
                 assert bytes(data) not in ids, "scenario: two messages with the same bytes"
             ids[bytes(data)] = i
             ack = m.get("ack", "none")
@@ -793,6 +823,7 @@ def run_case(sc, opts):
                 log.add("SESSION", lv["sessions"])
                 lv["sessions"] += 1
                 lv["unstarted"].clear()          # what the previous session had not handed to a callback went down with it
+                lv["cur_event"] = finish_event
                 if not any(e is finish_event for e in lv["events"]):
                     lv["events"].append(finish_event)
                 if lv["stopped"] and not finish_event.is_set():
@@ -921,7 +952,37 @@ def run_case(sc, opts):
             if akw.get("ack_time") is not None:
                 akw["ack_time"] = AcknowledgeType(akw["ack_time"])
             sv = live.get("supervisor")
-            if sv:
+            rb = live.get("rebuild")
+            if rb:
+                # a NEW Receiver with its OWN configuration per listening session, all on the one broker object
+                # (recv_props.gen_rebuild): built when the previous session's listen() failed or returned from the graceful stop
+                # scripted for that session
+                if rb.get("prebuilt"):
+                    # a Receiver somebody built on this broker earlier and never listened with
+                    box["prebuilt"] = Receiver(br, max_async_tasks=rb["prebuilt"][0], max_prefetch=rb["prebuilt"][1], run_startup=False)
+
+                async def supervise():
+                    k = 0
+                    while True:
+                        a_, p_ = rb["configs"][min(k, len(rb["configs"]) - 1)]
+                        rcv = LiveReceiver(br, max_async_tasks=a_, max_prefetch=p_, run_startup=False,
+                                           ack_type=AcknowledgeType(sc["ack_type"]) if sc.get("ack_type") else None)
+                        s_ = lv["sessions"]
+                        k += 1
+                        try:
+                            await rcv.listen(asyncio.Event())
+                        except asyncio.CancelledError:
+                            raise
+                        except Exception as exc:         # (an ExceptionGroup of the stream's error: anyio's task group)
+                            log.add("LISTEN.FAILED", s_, type(exc).__name__)
+                        else:
+                            if lv.get("stopped_session") != s_:
+                                return                   # the stream ended: the worker is done
+                        if rb.get("backoff_us"):
+                            await asyncio.sleep(rb["backoff_us"] / 1e6)
+
+                worker = asyncio.ensure_future(supervise())
+            elif sv:
                 # ONE Receiver object over several listen() sessions (recv_props.gen_relisten): the application supervises
                 # listen() itself - it listens again with the SAME receiver after listen() raised (the broker's stream failed)
                 # and, in mode "stop", after listen() returned from a graceful stop whose wait_tasks_timeout had expired
